@@ -195,6 +195,9 @@ impl Sim {
             Flavor::BlockLib => e.register(libflavors::BlockLib, ()),
         };
         let mut s = Sim { e, u, tok, now: start, min_temp, flavor, mint_auth, max_ttl };
+        // the token events the CONSTRUCTOR really emitted (role / list / ownership events dropped)
+        let ctor_ev: Vec<String> = s.events().split(';').filter(|x| !x.starts_with("other:") && *x != "-").map(|x| x.to_string()).collect();
+        let ctor_ev = if ctor_ev.is_empty() { "-".to_string() } else { ctor_ev.join(";") };
         if flavor == Flavor::AllowLib {
             for i in 0..N {
                 let r = call(&s.e, &s.tok, "allow", args(&s.e, [v(&s.e, s.u.a(i))]), &[]);
@@ -211,7 +214,7 @@ impl Sim {
         if matches!(flavor, Flavor::AllowList | Flavor::BlockList | Flavor::Pausable) {
             t.op(&format!("fungible mint a=0 amt={} lu=0 auth=-", initial));
             let st = s.state();
-            t.obs(&format!("ok {} now={} ev=mint:0:{} dem=-", st, s.now, initial));
+            t.obs(&format!("ok {} now={} ev={} dem=-", st, s.now, ctor_ev));
         }
         s.now = start;
         s
